@@ -82,7 +82,7 @@ func (opts *CompileOptions) Compile(source string) (string, error) {
 		return "", fmt.Errorf("missing tabular queries")
 	}
 
-	subqueries, err := splitQueries(nil, source, expr, asNames(nil, expr))
+	subqueries, err := splitQueries(nil, source, expr, scope, asNames(nil, expr))
 	if err != nil {
 		return "", err
 	}
@@ -129,9 +129,10 @@ type subquery struct {
 // splitQueries appends queries to dst that represent the given tabular expression.
 // The last element of the returned slice will be the query that represents the full expression.
 //
+// scope holds the parameters and let bindings in effect (join conditions are written here).
 // reserved holds the names given to subqueries by "as" operators anywhere in the statement:
 // generated subquery names steer clear of them.
-func splitQueries(dst []*subquery, source string, expr *parser.TabularExpr, reserved map[string]struct{}) ([]*subquery, error) {
+func splitQueries(dst []*subquery, source string, expr *parser.TabularExpr, scope map[string]string, reserved map[string]struct{}) ([]*subquery, error) {
 	dstStart := len(dst)
 	var lastSubquery *subquery
 	for i := 0; i < len(expr.Operators); i++ {
@@ -190,7 +191,7 @@ func splitQueries(dst []*subquery, source string, expr *parser.TabularExpr, rese
 			leftSubquery := len(dst) - 1
 
 			var err error
-			dst, err = splitQueries(dst, source, op.Right, reserved)
+			dst, err = splitQueries(dst, source, op.Right, scope, reserved)
 			if err != nil {
 				return nil, err
 			}
@@ -234,6 +235,7 @@ func splitQueries(dst []*subquery, source string, expr *parser.TabularExpr, rese
 			joinSource.WriteString(` AS "` + rightJoinTableAlias + `" ON `)
 			joinCtx := &exprContext{
 				source: source,
+				scope:  scope,
 				mode:   joinExprMode,
 			}
 			if err := writeExpression(joinCtx, joinSource, buildJoinCondition(op.Conditions)); err != nil {
